@@ -44,6 +44,9 @@ let dtys : (string * (dty * ty)) list =
       if wire_ty d <> t then fail "schema %s: description and Model.s_%s differ" name name;
       (name, (d, t))) table
 
+let shapes : (string * string) list = [
+]
+
 let n_lt a b = (match N.compare a b with Lt -> true | _ -> false)
 
 let buckets_of (bs : byte list) (cost : n) =
@@ -61,6 +64,12 @@ let check inp obs =
   let f = split_ws inp in
   let o = split_ws obs in
   match f with
+  | ["shape"; name] ->
+    (* field names of the Go destination types, by wire position (golden: written from the
+       Polkadot network specification / the struct definitions at the pinned commit) *)
+    let expected = (try List.assoc name shapes with Not_found -> "?unknown") in
+    { prop_ok = true; model_eq = (obs = expected); nontrivial = true; finding = "-"; tags = "shape";
+      detail = (if obs = expected then "" else "expected field names " ^ expected) }
   | ["dec"; name; kind; hx] ->
     let (d, t) = (try List.assoc name dtys with Not_found -> fail "C33: unknown decoder %s" name) in
     let bs = bytes_of_hex hx in
@@ -108,33 +117,53 @@ let check inp obs =
       tags = "breq,breq-" ^ from ^ (if m = None then ",m-err" else ",m-ok");
       detail = (if prop && model_core = obs_core then "" else "model=" ^ model_core) }
   | "bresp" :: rest ->
-    let blocks = (match rest with
+    (* block = header/entries[/hash/receipt/mq/justification/flag] *)
+    let full = (match rest with
         | [] -> []
         | [s] -> List.map (fun blk ->
+            let opt x = if x = "-" then [] else bytes_of_hex x in
             match String.split_on_char '/' blk with
             | [h; e] ->
-              ((if h = "-" then [] else bytes_of_hex h),
-               (if e = "-" then [] else List.map bytes_of_hex (String.split_on_char ',' e)))
+              (opt h, (if e = "-" then [] else List.map bytes_of_hex (String.split_on_char ',' e)),
+               List.init 32 (fun _ -> byte_of_int 0), [], [], [], false)
+            | [h; e; hash; rc; mq; ju; fl] ->
+              (opt h, (if e = "-" then [] else List.map bytes_of_hex (String.split_on_char ',' e)),
+               opt hash, opt rc, opt mq, opt ju, fl = "1")
             | _ -> fail "bresp: bad block %s" blk) (String.split_on_char ';' s)
         | _ -> fail "bresp: bad input") in
+    let blocks = List.map (fun (h, es, _, _, _, _, _) -> (h, es)) full in
     let (res, cost) = bresp_decode current blocks in
     let all_bytes = List.concat (List.map (fun (h, es) -> h @ List.concat es) blocks) in
     let bk = buckets_of all_bytes cost in
+    let hdr_d = parse_dty header and body_d = parse_dty "sl(bytes)" in
+    let optb = function None -> "N" | Some b -> "S" ^ hex_of_bytes b in
+    let model_view = (match bresp_view current blocks with
+        | Ok l ->
+          if l = [] then "-" else
+          String.concat ";" (List.map2 (fun (hv, bv) (_, _, hash, rc, mq, ju, fl) ->
+              String.concat "|" [
+                hex_of_bytes (bytes_to_hash hash);
+                (match hv with None -> "N" | Some v -> "S" ^ render_value hdr_d v);
+                (match bv with None -> "N" | Some v -> "S" ^ render_value body_d v);
+                optb (pb_opt rc); optb (pb_opt mq); optb (pb_just ju fl) ]) l full)
+        | _ -> "?") in
     let model_core = (match res with
-        | Ok _ -> Printf.sprintf "ok %x" (List.length blocks)
+        | Ok _ -> Printf.sprintf "ok %x %s" (List.length blocks) model_view
         | Err _ -> "err" | Panic -> "panic" | OutOfFuel -> "hang") in
     let (impl, obs_core, a, tm) = (match o with
-        | ["ok"; k; _re; a; tm] -> (Some (IOk (true, a = "L", tm = "T")), "ok " ^ k, a, tm)
+        | ["ok"; k; re; a; tm; view] -> (Some (IOk (re = "re1", a = "L", tm = "T")), "ok " ^ k ^ " " ^ view, a, tm)
         | ["err"; a; tm] -> (Some (IErr (a = "L", tm = "T")), "err", a, tm)
         | ["panic"] -> (Some IPanic, "panic", "s", "t")
         | _ -> (None, obs, "?", "?")) in
     let prop = (match impl with Some x -> c33_prop x | None -> false) in
     (* the body entries are copied once more (BytesArrayToExtrinsics): factor 2, as in Model.bytes_alloc *)
     let hostile = n_lt (alloc_budget all_bytes) (N.mul (n_of_int 2) cost) in
-    { prop_ok = prop; model_eq = (model_core = obs_core) && bucket_ok bk a tm;
+    (* a view with an unrendered huge byte string (?big) cannot be compared *)
+    let core_eq = (model_core = obs_core) || (String.contains obs_core '?' && n_lt (n_of_int 131072) cost) in
+    { prop_ok = prop; model_eq = core_eq && bucket_ok bk a tm;
       nontrivial = (blocks <> []); finding = (if prop then "-" else if hostile then "bytes-alloc" else "-");
-      tags = "bresp," ^ outcome_tag res;
-      detail = (if prop && model_core = obs_core then "" else "model=" ^ model_core ^ " cost=" ^ hex_of_n cost) }
+      tags = "bresp," ^ outcome_tag res ^ (if List.exists (fun (_, _, _, rc, mq, ju, _) -> rc <> [] || mq <> [] || ju <> []) full then ",bresp-extra" else "");
+      detail = (if prop && core_eq then "" else "model=" ^ (if String.length model_core > 300 then String.sub model_core 0 300 else model_core) ^ " cost=" ^ hex_of_n cost) }
   | ["pbraw"; which; hx] ->
     let (impl, okshape) = (match o with
         | ["ok"; a; tm] -> (Some (IOk (true, a = "L", tm = "T")), a = "s" && tm = "t")
